@@ -471,7 +471,7 @@ func (p *CodeBuilder) Slice(slice3 bool, src ...ast.Node) *CodeBuilder { // a[i:
 	if slice3 {
 		exprMax = args[3].Val
 	}
-	p.checkSliceIndices(args[1:])
+	p.checkSliceIndices(args[1:], x.Type)
 	elem := &internal.Elem{
 		Val: &ast.SliceExpr{
 			X: x.Val, Low: args[1].Val, High: args[2].Val, Max: exprMax, Slice3: slice3,
@@ -531,7 +531,17 @@ func (p *CodeBuilder) Index(nidx int, lhs int, src ...ast.Node) *CodeBuilder {
 
 // checkSliceIndices checks the indices of x[i:j:k]: each one given must be of integer type or an
 // untyped constant representable as a non-negative int, and constant indices must not decrease.
-func (p *CodeBuilder) checkSliceIndices(idxs []*internal.Elem) {
+func (p *CodeBuilder) checkSliceIndices(idxs []*internal.Elem, xtyp types.Type) {
+	limit := int64(-1) // length of the array (or pointed-to array) being sliced
+	if t, ok := types.Unalias(xtyp).(*types.Pointer); ok {
+		xtyp = t.Elem()
+	}
+	if named, ok := types.Unalias(xtyp).(*types.Named); ok {
+		xtyp = p.getUnderlying(named)
+	}
+	if arr, ok := types.Unalias(xtyp).(*types.Array); ok {
+		limit = arr.Len()
+	}
 	last := int64(-1)
 	for _, idx := range idxs {
 		if idx.Val == nil || idx.Type == nil { // omitted
@@ -560,6 +570,10 @@ func (p *CodeBuilder) checkSliceIndices(idxs []*internal.Elem) {
 		if v < last {
 			_, pos, end := p.loadExpr(idx.Src)
 			p.panicCodeErrorf(pos, end, "invalid slice indices: %d < %d", v, last)
+		}
+		if limit >= 0 && v > limit {
+			src, pos, end := p.loadExpr(idx.Src)
+			p.panicCodeErrorf(pos, end, "invalid argument: index %s out of bounds [0:%d]", src, limit+1)
 		}
 		last = v
 	}
